@@ -6,6 +6,7 @@ import (
 	customtransport "github.com/uber-go/tally/v4/m3/customtransports"
 	"github.com/uber-go/tally/v4/thirdparty/github.com/apache/thrift/lib/go/thrift"
 	"math"
+	"strings"
 	"time"
 
 	"github.com/uber-go/tally/v4/m3"
@@ -357,6 +358,29 @@ func c16Utilities(c *mon.Ctx, r *mon.Rand) {
 	if r.Bool() {
 		p = m3.Binary
 	}
+	// (3) a metric with long strings encoded through a transport that offers
+	// only the plain TTransport methods (the protocols then write bytes and
+	// strings through their RichTransport adapter, as they do over the
+	// multi-destination UDP transport): decodes to the same metric
+	{
+		m := genMetric(r)
+		m.Name = genBytes(r, 40) + strings.Repeat("n", r.Range(200, 1400))
+		for k := range m.Tags {
+			if r.Bool() {
+				m.Tags[k].Value = strings.Repeat("v", r.Range(250, 800)) + genBytes(r, 10)
+			}
+		}
+		pt := &c16PlainTransport{}
+		proto := protoFactory(p).GetProtocol(pt)
+		if err := m.Write(proto); err == nil && proto.Flush() == nil {
+			got, rest, derr := decodeMetric(p, pt.buf.Bytes())
+			if derr != nil || rest != 0 || !metricEqual(normMetric(got), normMetric(m)) {
+				c.Violation("roundtrip-differs/plain-transport/"+protoName(p), map[string]interface{}{"why": fmt.Sprintf("a metric with a name of %d bytes written through a transport without byte/string methods decodes differently (err=%v, %d trailing bytes, decoded name %d bytes)", len(m.Name), derr, rest, len(got.Name))})
+				return
+			}
+			c.Event("metrics-encoded-through-a-plain-transport", 1)
+		}
+	}
 	for k, packets := 0, r.Range(2, 5); k < packets; k++ {
 		b := m3thrift.MetricBatch{Metrics: []m3thrift.Metric{genMetric(r), genMetric(r)}, CommonTags: genTags(r, 3)}
 		data, err := newEncoder(p).batch(b)
@@ -395,3 +419,14 @@ func c16Utilities(c *mon.Ctx, r *mon.Rand) {
 		c.Event("packets-decoded-through-one-read-transport", 1)
 	}
 }
+
+// c16PlainTransport implements thrift.TTransport and nothing more.
+type c16PlainTransport struct{ buf bytes.Buffer }
+
+func (t *c16PlainTransport) Read(p []byte) (int, error)  { return t.buf.Read(p) }
+func (t *c16PlainTransport) Write(p []byte) (int, error) { return t.buf.Write(p) }
+func (t *c16PlainTransport) Close() error                { return nil }
+func (t *c16PlainTransport) Flush() error                { return nil }
+func (t *c16PlainTransport) RemainingBytes() uint64      { return uint64(t.buf.Len()) }
+func (t *c16PlainTransport) Open() error                 { return nil }
+func (t *c16PlainTransport) IsOpen() bool                { return true }
